@@ -35,6 +35,7 @@ RULE = (
     "tee closes its source exactly when the last child is done. Non-trivial: >=1 async source with a release "
     "obligation and the crash point was reached; distinct = distinct (scenario shape, crash point)."
     " Extensions of rounds 9-12: callables raising StopAsyncIteration; a tee source is closed when the last child is done and not before, even if it has reported its end; nested chains / re-split tee children from the tool table."
+    " Round 13: tee histories may end by leaving ``async with tee`` (also with a GeneratorExit); the tee may be given a plain lock."
 )
 COMPONENTS = COMPONENTS_BASE
 ASSUMPTIONS = [
